@@ -246,6 +246,20 @@ pub fn c09_child(ctx: &Ctx) -> i32 {
                 }
             }
         }
+        // extreme upper bounds of the opcode range: with drained or all-zero fuzzer bytes the drawn count is the
+        // lower bound, so the call is small - whatever is derived from the configured bound must not matter
+        for p in 0u8..=5 {
+            for max in [usize::MAX, usize::MAX - 1, 1usize << 62, 1 << 40, u32::MAX as usize, (u32::MAX as usize) + 1] {
+                for (min, bytes) in [(0usize, vec![]), (3, vec![]), (37, vec![0u8; 64]), (1, vec![0u8; 3])] {
+                    let mut c = GenCase::default_for(p, 0);
+                    c.min_opcodes = min;
+                    c.max_opcodes = max;
+                    c.entropy = Entropy::Bytes(bytes);
+                    c.build_style = if max % 2 == 1 { 1 } else { 0 };
+                    items.push(c);
+                }
+            }
+        }
         let (st, found) = run_enum(items, |c, st| check_c09(ctx, c, st));
         out.stats.merge(st);
         if let Some((c, f)) = found {
